@@ -1,8 +1,5 @@
 import Ebu.Spec.Bus
-import Ebu.Proofs.BusRefine
 import Ebu.Proofs.BusFrame
-import Ebu.Proofs.BusPersist
-import Ebu.Proofs.BusObs
 /-!
 C05 — A panicking handler never harms the publisher or the other handlers
 
